@@ -7,6 +7,7 @@ from mc.runner import Sub
 from props.common import dense
 
 from formulaic import Formula, ModelSpec, model_matrix
+from formulaic.formula import StructuredFormula
 from formulaic.utils.structured import Structured
 
 RULE = (
@@ -55,7 +56,14 @@ SPECS = {
     "y + z ~ 0": (lambda: Formula("y + z ~ 0"), "yz"),
     "Formula(('x', ('z', 'y')))": (lambda: Formula(("x", ("z", "y"))), "yxz"),
     "Formula(lhs='y', rhs=('x', ('z', 'w')))": (lambda: Formula(lhs="y", rhs=("x", ("z", "w"))), "ywxz"),
+    # structures with a single 'root' part: still structured results
+    "StructuredFormula('x + z')": (lambda: StructuredFormula("x + z"), "xz"),
+    "Formula.from_spec({'root': 'x + z'})": (lambda: Formula.from_spec({"root": "x + z"}), "xz"),
+    # factors that need the caller's context (a function and a vector that are not in the data)
+    "y ~ dbl(x) | z + cvec": (lambda: Formula("y ~ dbl(x) | z + cvec"), "yxz"),
+    "Formula(('cvec:z', 'dbl(x)'))": (lambda: Formula(("cvec:z", "dbl(x)")), "xz"),
 }
+CTX = {"cvec": np.array([3.0, 1.0, 4.0, 1.5]), "dbl": lambda v: v * 2}
 
 
 def leaves(obj, path=()):
@@ -126,11 +134,11 @@ def drv(c, ctx, col):
     reported = set()  # the caller's (initially empty) drop set: must end up equal to the jointly dropped rows
     try:
         if entry == "model_matrix":
-            got = model_matrix(formula, df, output=output, drop_rows=reported)
+            got = model_matrix(formula, df, output=output, drop_rows=reported, context=CTX)
         elif entry == "Formula.get_model_matrix":
-            got = formula.get_model_matrix(df, output=output, drop_rows=reported)
+            got = formula.get_model_matrix(df, output=output, drop_rows=reported, context=CTX)
         else:
-            got = ModelSpec.from_spec(formula, output=output).get_model_matrix(df, drop_rows=reported)
+            got = ModelSpec.from_spec(formula, output=output).get_model_matrix(df, drop_rows=reported, context=CTX)
     except Exception as e:  # noqa
         col.violation(key, dict(detail, error="%s: %s" % (type(e).__name__, str(e)[:200])), sig="raised:" + type(e).__name__)
         return
@@ -149,7 +157,7 @@ def drv(c, ctx, col):
     # the attached (structured) spec as a whole regenerates the whole result, with the same joint rows
     if isinstance(got, Structured):
         try:
-            regen_all = leaves(got.model_spec.get_model_matrix(df))
+            regen_all = leaves(got.model_spec.get_model_matrix(df, context=CTX))
         except Exception as e:  # noqa
             col.violation(key, dict(detail, error="%s: %s" % (type(e).__name__, str(e)[:200])), sig="structured-spec-regeneration-raised:" + type(e).__name__)
             return
@@ -167,7 +175,7 @@ def drv(c, ctx, col):
             col.violation(key, dict(detail, path=list(path), index=list(part.index), expected=want_index), sig="rows:index")
             return
         # the part built alone with the joint drop set
-        alone = fl[path].get_model_matrix(df, drop_rows=set(joint), output=output)
+        alone = fl[path].get_model_matrix(df, drop_rows=set(joint), output=output, context=CTX)
         A = dense(alone)
         if A.shape != G.shape or not np.allclose(A, G, rtol=1e-12, atol=1e-12, equal_nan=True):
             col.violation(key, dict(detail, path=list(path), joint=G.tolist(), alone=A.tolist()), sig="part-differs-from-separate-build")
@@ -177,7 +185,7 @@ def drv(c, ctx, col):
                                     alone_names=list(alone.model_spec.column_names)), sig="part-names-differ")
             return
         # the leaf spec regenerates its own part
-        regen = sl[path].get_model_matrix(df, drop_rows=set(joint))
+        regen = sl[path].get_model_matrix(df, drop_rows=set(joint), context=CTX)
         R = dense(regen)
         if R.shape != G.shape or not np.allclose(R, G, rtol=1e-12, atol=1e-12, equal_nan=True):
             col.violation(key, dict(detail, path=list(path), part=G.tolist(), regenerated=R.tolist()), sig="spec-does-not-regenerate-part")
